@@ -125,10 +125,39 @@ def _session(ctx, tag, args, timeout=600):
     return res
 
 
+def _specials(c, so_lines=None):
+    """Property-level facts a correspondence stream establishes by itself: a callee wrote into caller-owned
+    input (INPUT-MUTATED), the same call on the same objects answered differently (UNSTABLE), a call did not
+    return within the per-call deadline (HANG). Each becomes a violation with the op line as replay."""
+    vs = []
+    paths = c.get('paths') or {}
+    try:
+        with open(paths['ops'], errors='replace') as fo, open(paths['obs'], errors='replace') as fb:
+            seen = {}
+            for o, x in zip(fo, fb):
+                x = x.strip()
+                kind = None
+                if x.startswith('INPUT-MUTATED'):
+                    kind = 'input-mutated'
+                elif x.startswith('UNSTABLE'):
+                    kind = 'unstable-answer'
+                elif x.startswith('HANG'):
+                    kind = 'hang'
+                if kind:
+                    key = kind + ':' + o.split(' ', 1)[0]
+                    seen[key] = seen.get(key, 0) + 1
+                    if seen[key] <= 2:
+                        vs.append(dict(key=key, desc='%s: %s' % (key, x[:300]), replay=dict(ops=[o.strip()], expected='an answer that is a function of the inputs, inputs left unchanged, within the deadline')))
+    except Exception:
+        pass
+    return vs
+
+
 def correspond(ctx):
-    c = vlib.correspond(ctx, 'c16', 'C16', [], canon=canon, timeout=1500,
+    c = vlib.correspond(ctx, 'c16', 'C16', [], canon=canon, timeout=900,
                         nontrivial=lambda o, x: True)
     c['name'] = 'c16'
+    c['violations'] = _specials(c)
     if c.get('paths'):
         st = c.get('stats') if isinstance(c.get('stats'), dict) else {}
         st.pop('results', None)
@@ -140,8 +169,9 @@ def correspond(ctx):
     # fork-configuration sessions: the qualification rule under the mainnet and robin schedules (their own
     # Proposal025Block, heights on both sides); the model takes the threshold from the op line
     for env in ('mainnet', 'robin'):
-        f = _session(ctx, 'fork-' + env, ['env=' + env, 'part=fork'])
+        f = _session(ctx, 'fork-' + env, ['env=' + env, 'part=fork'], timeout=300)
         f['name'] = 'c16-fork-' + env
+        f['violations'] = _specials(f)
         if f.get('paths'):
             st = f.get('stats') if isinstance(f.get('stats'), dict) else {}
             st.pop('results', None)
@@ -174,11 +204,11 @@ def search(ctx, hints):
     r = json.load(open(out))
     if rc != 0 or not r.get('complete', False):
         # the searcher died part-way: what it had found is in the partial file (rewritten on every find)
-        return dict(evaluations=r.get('evaluations', 0), distinct_nontrivial=r.get('distinct', 0), violations=r.get('violations', []),
-                    samples=r.get('samples', [])[:6], counts=r.get('counts', {}),
+        return dict(evaluations=r.get('evaluations', 0), distinct_nontrivial=r.get('distinct', 0), violations=(r.get('violations') or []),
+                    samples=(r.get('samples') or [])[:6], counts=r.get('counts', {}),
                     error='searcher exited %d before completing: %s' % (rc, (se or so)[-800:]))
     res = dict(evaluations=r.get('evaluations', 0), distinct_nontrivial=r.get('distinct', 0),
-               samples=r.get('samples', [])[:6], violations=r.get('violations', []),
+               samples=(r.get('samples') or [])[:6], violations=(r.get('violations') or []),
                counts=r.get('counts', {}),
                concurrency_note='the concurrent phase (N goroutines proving/verifying at once, compared with the sequential '
                                 'answers) and the history phase are EVIDENCE, not proof: a schedule-dependent defect may need several runs')
